@@ -25,7 +25,7 @@ EXPLANATION = (
     "-> ConfigError before anything else; attempts below 1 clamped to 1 before the schedule is called; credit == 1 "
     "leaves the result untouched and is tested on the same normalised value that scales the grades; exactly the entries with grade > 0 are multiplied by the credit with ok recomputed "
     "from the new grade, for list and single results, no early exit; the note is appended iff the message flag and "
-    "some grade changed, with the literal format and the right key. (D3) __call__ applies it iff "
+    "some grade changed, with the literal format and the right key. (D3) after the credit is applied __call__ only appends to the message keys; __call__ applies it iff "
     "config['attempt_based_credit'], with kwargs.get('attempt'), after the key filter and before the debug append.")
 NOT_DECIDED = ("author-defined schedules (assumed to respect the documented contract); the effect of the 4-digit "
                "rounding (a rounded credit may differ from the exact one by 5e-5, e.g. round(minimum_credit, 4) may "
@@ -45,6 +45,7 @@ def check(ctx):
     d1_schedules(ctx, idx)
     d2_apply(ctx, idx)
     d3_call(ctx, idx)
+    d3_keep(ctx, idx)
 
 
 # ----------------------------------------------------------------------------- D1
@@ -142,6 +143,15 @@ class Schedule(object):
 
     def cfgtext(self, asg):
         return ', '.join('%s=%s' % (k, _fmt(v)) for k, v in sorted(asg.items()) if k != self.var) or 'no options'
+
+    def admitted(self, asg):
+        """Which option values the schema admits (a counterexample may be due to the validator, not to the formula)."""
+        parts = []
+        for k in sorted(asg):
+            f = self.facts.syms.get(k)
+            if f is not None and k != self.var and f.source:
+                parts.append('%s in %s by `%s`' % (k, f.interval.text(), f.source.split(': ', 1)[-1]))
+        return ('; the schema admits ' + ', '.join(parts)) if parts else ''
 
     def _scan(self):
         """Exact rational evaluation of the extracted function on the witness grid: first counterexample per item."""
@@ -314,7 +324,7 @@ def _range(r, sch):
         elif 'range' in sch.witness:
             asg, msg = sch.witness['range']
             r.violation(sch.label(p), 'the credit leaves [0, 1]: with %s, %s (grades would be scaled above full credit or '
-                        'below zero)' % (sch.cfgtext(asg), msg), where, expected='0 <= s(n) <= 1', found=msg)
+                        'below zero)%s' % (sch.cfgtext(asg), msg, sch.admitted(asg)), where, expected='0 <= s(n) <= 1', found=msg)
         else:
             r.undecided(sch.label(p), 'cannot bound `%s` and found no counterexample' % ai.show(p.value), where)
     if sch.min_key:
@@ -1253,6 +1263,69 @@ def d3_call(ctx, idx):
                 'the credit is applied to `%s`, which is not the result that is returned' % short(a0), where)
 
 
+def d3_keep(ctx, idx):
+    """The note is written into result['overall_message'] / result['msg'] by apply_attempt_based_credit; whatever
+    __call__ does to these keys afterwards (debug log) must keep the text that is already there."""
+    r = ctx.rule('D3.KEEP', "after the credit is applied, __call__ only appends to result['overall_message'] / result['msg'] "
+                 '(the note is not overwritten)', floor=2)
+    with r:
+        fi = idx.func(AG + '.__call__')
+        calls = lib.calls_named(fi.node, 'apply_attempt_based_credit')
+        if len(calls) != 1 or not calls[0].args or not isinstance(calls[0].args[0], ast.Name):
+            raise AnalysisError('call of apply_attempt_based_credit(result, ...) not found in __call__')
+        res = calls[0].args[0].id
+        pRes = ('param', res)
+        # the top-level statement of __call__ that contains the call; everything after it runs after the note was written
+        top = None
+        for i, st in enumerate(fi.node.body):
+            if any(n is calls[0] for n in ast.walk(st)):
+                top = i
+        if top is None:
+            raise AnalysisError('the call of apply_attempt_based_credit is not inside a top-level statement of __call__')
+        tail = fi.node.body[top + 1:]
+        try:
+            paths = ai.sym_exec(idx, fi, stmts=tail)
+        except Unsupported as e:
+            raise AnalysisError('statements after the credit application: %s' % e)
+        seen = set()
+        for key in ('overall_message', 'msg'):
+            old = ('index', pRes, ('str', key))
+            n_written = 0
+            for p in paths:
+                if res in p.env:
+                    r.undecided('AbstractGrader.__call__: %s rebound' % res, 'the result is replaced by `%s` after the credit was applied'
+                                % ai.show(p.env[res])[:80], fi.loc)
+                    break
+                if old not in p.store:
+                    continue
+                n_written += 1
+                V = p.store[old]
+                stmt = next((st_ for e, st_ in p.effects if e[0] == 'store' and e[1] == old), None)
+                where = lib.loc(fi, stmt or fi.node)
+                keeps = ai.mentions(V, old)
+                getters = [old, ('meth', pRes, 'get', (('str', key),), ()), ('meth', pRes, 'get', (('str', key), ('str', '')), ()),
+                           ('meth', pRes, 'get', (('str', key), ('none',)), ())]
+                empty = any(c == ai.t_not(g_) or c == ('not', g_) or c == ('cmp', '==', g_, ('str', '')) or c == ('cmp', '==', ('str', ''), g_)
+                            or c == ('cmp', 'notin', ('str', key), pRes)
+                            for g in p.conds for c in ai.t_conjuncts(g) for g_ in getters)
+                sig = (key, keeps, empty, ai.show(V)[:60])
+                if sig in seen:
+                    continue
+                seen.add(sig)
+                construct = "AbstractGrader.__call__: later store to result[%r]" % key
+                if keeps:
+                    r.ok(construct + ' [append]', 'the new value contains the old text', where)
+                elif empty:
+                    r.ok(construct + ' [was empty]', 'assigned only when the old text is empty', where)
+                else:
+                    r.violation(construct, "result[%r] is overwritten with `%s` (under `%s`) after apply_attempt_based_credit appended the note "
+                                "'Maximum credit for attempt #n is p%%.' to it: the note is lost, although a grade was reduced and the note is "
+                                'enabled' % (key, ai.show(V)[:60], ' and '.join(ai.show(c) for c in p.conds)[:120] or 'every call'), where,
+                                expected="result[%r] += ... (or assignment only when it is empty)" % key, found=ai.show(V)[:80])
+            if n_written == 0:
+                r.ok("AbstractGrader.__call__: result[%r]" % key, 'not written after the credit was applied', fi.loc, nontrivial=False)
+
+
 # ------------------------------------------------------------------------ self-test
 _NONE_BLOCK = """        if attempt_number is None:
             msg = ("Attempt number not passed to grader as keyword argument 'attempt'. "
@@ -1314,6 +1387,8 @@ MUTANTS = [
            "                key = 'msg'\n            else:\n                key = 'overall_message'", 'D2'),
     Mutant('note-args-swapped', BASE, "msg.format(attempt_number, credit_decimal)", "msg.format(credit_decimal, attempt_number)", 'D2'),
     Mutant('note-percent-scale', BASE, "Decimal(credit * 100)", "Decimal(credit * 10)", 'D2'),
+    Mutant('debug-log-overwrites-note', BASE, "                if result.get('overall_message', ''):\n                    result['overall_message'] += \"\\n\\n\" + self.log_output()  # pragma: no cover\n                else:\n                    result['overall_message'] = self.log_output()\n",
+           "                result['overall_message'] = self.log_output()\n", 'D3', note='the debug log replaces the attempt-credit note in overall_message'),
     Mutant('call-guard-dropped', BASE, _GUARDED_CALL, "        self.apply_attempt_based_credit(result, kwargs.get('attempt'))", 'D3'),
     Mutant('call-guard-wrong-option', BASE, _GUARDED_CALL, _GUARDED_CALL.replace("['attempt_based_credit']", "['attempt_based_credit_msg']"), 'D3'),
     Mutant('attempt-default', BASE, "kwargs.get('attempt'))", "kwargs.get('attempt', 1))", 'D3'),
@@ -1332,5 +1407,7 @@ BENIGN = [
     Benign('clamp-by-max', BASE, "        if attempt_number < 1:  # Just in case edX has issues\n            attempt_number = 1\n", "        attempt_number = max(attempt_number, 1)\n"),
     Benign('note-condition-reordered', BASE, "if self.config['attempt_based_credit_msg'] and changed_result:", "if changed_result and self.config['attempt_based_credit_msg']:"),
     Benign('linear-interpolation-rearranged', CREDIT, "credit = 1 + (min_cred - 1) * steps / decrease_steps", "credit = 1 - (1 - min_cred) * (steps / decrease_steps)"),
+    Benign('debug-log-append-as-conditional-expression', BASE, "                if result.get('msg', ''):\n                    result['msg'] += \"\\n\\n\" + self.log_output()\n                else:\n                    result['msg'] = self.log_output()\n",
+           "                result['msg'] = (result['msg'] + \"\\n\\n\" + self.log_output()) if result.get('msg', '') else self.log_output()\n"),
     Benign('guard-is-not-none', BASE, "        if self.config['attempt_based_credit']:\n            self.apply", "        if self.config['attempt_based_credit'] is not None:\n            self.apply"),
 ]
